@@ -2,6 +2,7 @@ mod c01;
 mod c05;
 mod c10;
 mod c11;
+mod c12;
 mod c15;
 mod dump;
 mod progen;
@@ -22,6 +23,7 @@ fn main() {
         "c01" => c01::main(&args),
         "c05" => c05::main(&args),
         "c10" => c10::main(&args),
+        "c12" => c12::main(&args),
         "c15" => c15::main(&args),
         "c11" => c11::main(&args),
         "probe" => probe::main(&args),
